@@ -82,6 +82,13 @@ def build_driver():
         raise FactsError("driver build failed:\n" + r.stderr[-4000:])
 
 
+def _touch(d):
+    try:
+        os.utime(d, None)
+    except OSError:
+        pass
+
+
 def ensure_facts(repo=REPO, all_targets=False, quiet=False):
     """Return the directory holding facts for the current tree of `repo`."""
     os.makedirs(CACHE, exist_ok=True)
@@ -94,6 +101,7 @@ def ensure_facts(repo=REPO, all_targets=False, quiet=False):
     out = os.path.join(CACHE, "facts", key)
     marker = os.path.join(out, ".complete")
     if os.path.exists(marker):
+        _touch(out)
         return out
     lock = open(os.path.join(CACHE, "lock"), "w")
     fcntl.flock(lock, fcntl.LOCK_EX)
@@ -150,7 +158,12 @@ def ensure_facts(repo=REPO, all_targets=False, quiet=False):
             key=lambda p: os.path.getmtime(p),
             reverse=True,
         )
+        # never remove the directory just produced, nor one used within the last 30 minutes
+        # (another check may be reading it right now)
+        now = time.time()
         for d in ds[16:]:
+            if d == out or now - os.path.getmtime(d) < 1800:
+                continue
             shutil.rmtree(d, ignore_errors=True)
         return out
     finally:
@@ -417,7 +430,13 @@ _DB = {}
 def load(repo=REPO, all_targets=False):
     d = ensure_facts(repo, all_targets=all_targets)
     if d not in _DB:
-        _DB[d] = DB(d, include_tests=all_targets)
+        try:
+            _DB[d] = DB(d, include_tests=all_targets)
+        except FileNotFoundError:
+            # the cache directory was removed under us (concurrent prune): extract again, once
+            shutil.rmtree(d, ignore_errors=True)
+            d = ensure_facts(repo, all_targets=all_targets)
+            _DB[d] = DB(d, include_tests=all_targets)
     return _DB[d]
 
 
